@@ -134,7 +134,10 @@ def flatten(t: Tree, root_id: str = "m") -> List[N]:
 
     def rec(tt: Tree, parent: Optional[N], depth: int) -> N:
         idx = len(nodes)
-        key = root_id if parent is None else KEYS[idx - 1]
+        # adversarial naming: every key is a string prefix of all later keys
+        # ('a', 'ab', 'abc', ...), so id-prefix tests that forget the '.' separator
+        # confuse siblings with descendants
+        key = root_id if parent is None else KEYS[:idx]
         id_ = key if parent is None else f"{parent.id}.{key}"
         n = N(idx, tt[0], key, id_, parent, depth)
         nodes.append(n)
@@ -199,7 +202,7 @@ def cfg_node(cfg: Dict[str, Any], node: N) -> Dict[str, Any]:
     return sub
 
 
-def universal_config(t: Tree, *, with_root_targets: bool = True) -> Tuple[Dict[str, Any], List[N], Dict[str, Dict[str, Any]]]:
+def universal_config(t: Tree, *, with_root_targets: bool = True, reenter_all: bool = True) -> Tuple[Dict[str, Any], List[N], Dict[str, Dict[str, Any]]]:
     """Universal machine: one event per (source, target) pair.
 
     Events: 'T<i>_<j>' source i -> target j (absolute '#id' target),
@@ -223,6 +226,14 @@ def universal_config(t: Tree, *, with_root_targets: bool = True) -> Tuple[Dict[s
         name = f"R{s.idx}"
         on[name] = {"target": f"#{s.id}", "reenter": True, "actions": [f"tr:{name}"]}
         events[name] = {"src": s.id, "tgt": s.id, "kind": "R"}
+        if reenter_all:
+            # the reenter flag on every non-self target as well
+            for tnode in nodes:
+                if tnode is s or (tnode.idx == 0 and not with_root_targets):
+                    continue
+                name = f"X{s.idx}_{tnode.idx}"
+                on[name] = {"target": f"#{tnode.id}", "reenter": True, "actions": [f"tr:{name}"]}
+                events[name] = {"src": s.id, "tgt": tnode.id, "kind": "T", "reenter": True}
         name = f"N{s.idx}"
         on[name] = {"actions": [f"tr:{name}"]}
         events[name] = {"src": s.id, "tgt": None, "kind": "N"}
